@@ -17,6 +17,8 @@ def build():
             && (forall|i: int| 0 <= i < parts.len() ==> !(#[trigger] parts[i]).contains('.'))
             && (forall|i: int| 0 <= i < parts.len() ==> label_spec(#[trigger] parts[i]) is Some)
             && v@ == join(parts.map_values(|l: Seq<char>| label_spec(l).unwrap()), '.'), //@C01.dns_names_are_lowercase_a_labels,C16.domain_is_an_a_label_name
+        // and the only names refused are those with a label that has no A-label form (no name is turned away for another reason)
+        encodable(domain_name@) ==> r is Ok, //@C01.only_a_name_with_an_unencodable_label_is_refused,C16.only_a_name_with_an_unencodable_label_is_refused
 """, loops={1: """
     invariant labels_done(views(parts@), idna_parts@, it.index@),
 """}, rewrites=[("T-ITER", r"domain_name\.split\('\.'\)\.collect\(\)", "crate::vmap::split_char(domain_name, '.')"),
@@ -26,6 +28,8 @@ def build():
                 ("T-FMT", r"format!\(\"xn--\{(?P<v>\w+)\}\"\)", lambda m: f'crate::vstr::cat2("xn--", &{m.group("v")})'),
                 ("T-ITER", r"idna_parts\.join\(\"\.\"\)", "crate::vstr::join_strings(&idna_parts, '.')")],
         at=[("loop_iter", None, 1, "it:"),
+            ("before_stmt_re", r"let \w+ = (\w+)\.to_lowercase\(\)", 1, """
+        proof { let ps = views(parts@); assert(ps[it.index@] == $1@); assert(label_spec(ps[it.index@]) == label_spec($1@)); assert(join(ps, '.') == domain_name@); }"""),
             ("before_tail", None, 1, """
     proof {
         let ps = views(parts@);
@@ -39,6 +43,11 @@ def build():
 SPEC = """
 pub open spec fn labels_done(ps: Seq<Seq<char>>, out: Seq<String>, n: int) -> bool {
     out.len() == n && forall|i: int| 0 <= i < n ==> label_spec(#[trigger] ps[i]) == Some(out[i]@)
+}
+// every label of the name (however it is cut at its dots - there is one way) has an A-label form
+pub open spec fn encodable(d: Seq<char>) -> bool {
+    forall|ps: Seq<Seq<char>>| #[trigger] join(ps, '.') == d && (forall|i: int| 0 <= i < ps.len() ==> !(#[trigger] ps[i]).contains('.'))
+        ==> (forall|i: int| 0 <= i < ps.len() ==> label_spec(#[trigger] ps[i]) is Some)
 }
 pub open spec fn label_spec(l: Seq<char>) -> Option<Seq<char>> {
     if all_ascii(l) { Some(lower(l)) } else { match puny(lower(l)) { Some(p) => Some("xn--"@ + p), None => None } }
